@@ -3,6 +3,7 @@ package props
 import (
 	"fmt"
 	"html/template"
+	"io"
 	"runtime"
 	"strings"
 	"sync"
@@ -31,6 +32,49 @@ type c16Job struct {
 	spec   gen.TableSpec
 	aligns []int
 	order  []int // order in which this goroutine renders the formats
+	reuse  bool  // one table for all renders of this job (state accumulates on it) instead of a fresh one per render
+}
+
+type c16Res struct {
+	out string
+	err bool
+}
+
+var c16PropKeys = []interface{}{"c16-a", "c16-b", &struct{ n string }{"c16-c"}}
+
+// c16Work is what one goroutine does with its job: build its own table(s), and before every render put
+// property traffic on its own table, column 0 and first cell (three keys in rotating order, so that keys
+// below the most recent one are replaced), render, and read the properties back.  The same function
+// produces the sequential reference.
+func c16Work(j *c16Job, g int, formats []c16Format, done func(fi int, r c16Res)) {
+	var shared tabular.Table
+	if j.reuse {
+		shared = c16Build(j)
+	}
+	for k, fi := range j.order {
+		t := shared
+		if t == nil {
+			t = c16Build(j)
+		}
+		owners := []tabular.PropertyOwner{t, t.Column(0)}
+		if cell, err := t.CellAt(tabular.CellLocation{Row: 1, Column: 1}); err == nil {
+			owners = append(owners, cell)
+		}
+		for o, ow := range owners {
+			for q := 0; q < 2; q++ {
+				ow.SetProperty(c16PropKeys[(k+q+o)%3], g*1000+k*10+q)
+			}
+		}
+		out, err := formats[fi].f(t, g)
+		var sb strings.Builder
+		sb.WriteString(out)
+		for _, ow := range owners {
+			for _, key := range c16PropKeys {
+				fmt.Fprintf(&sb, "|%v", ow.GetProperty(key))
+			}
+		}
+		done(fi, c16Res{sb.String(), err != nil})
+	}
 }
 
 type c16Format struct {
@@ -71,7 +115,33 @@ func c16Formats() []c16Format {
 		}})
 	}
 	fs = append(fs, c16Format{"auto:utf8-double", func(t tabular.Table, g int) (string, error) { return auto.Render(t, "utf8-double") }})
+	// the caller's io.Writer is the library's one suspension point: a writer that yields the processor on
+	// every Write parks a render between any two of its writes, while other goroutines render
+	yielding := func(name string, to func(t tabular.Table, w io.Writer) error) {
+		fs = append(fs, c16Format{name + ":yielding-writer", func(t tabular.Table, g int) (string, error) {
+			w := &yieldWriter{}
+			err := to(t, w)
+			if err != nil {
+				return "", err
+			}
+			return string(w.b), nil
+		}})
+	}
+	yielding("json", func(t tabular.Table, w io.Writer) error { return json.Wrap(t).RenderTo(w) })
+	yielding("csv", func(t tabular.Table, w io.Writer) error { return csv.Wrap(t).RenderTo(w) })
+	yielding("markdown", func(t tabular.Table, w io.Writer) error { return markdown.Wrap(t).RenderTo(w) })
+	yielding("html", func(t tabular.Table, w io.Writer) error { return html.Wrap(t).RenderTo(w) })
+	yielding("text", func(t tabular.Table, w io.Writer) error { return texttable.Wrap(t).RenderTo(w) })
 	return fs
+}
+
+// yieldWriter accepts everything and yields the processor on every Write.
+type yieldWriter struct{ b []byte }
+
+func (w *yieldWriter) Write(p []byte) (int, error) {
+	w.b = append(w.b, p...)
+	runtime.Gosched()
+	return len(p), nil
 }
 
 func c16Build(j *c16Job) tabular.Table {
@@ -101,7 +171,23 @@ func c16Run(c *Ctx, i int, r *gen.R) {
 				}
 				return r.TextItem(c10Fam, 4)
 			}})
-		j := &c16Job{spec: spec, aligns: make([]int, spec.NCols()+1), order: r.Perm(len(formats))}
+		if r.Chance(1, 6) && spec.NCols() > 0 && len(spec.Rows) > 0 {
+			// headers every renderer accepts plus an item encoding/json refuses: this job's JSON renders fail part-way
+			spec.HasHeader, spec.Header = true, nil
+			for k := 0; k < spec.NCols(); k++ {
+				spec.Header = append(spec.Header, gen.StrItem(fmt.Sprintf("key%d", k+1)))
+			}
+			if spec.HeaderAt > len(spec.Rows) {
+				spec.HeaderAt = len(spec.Rows)
+			}
+			for k := range spec.Rows {
+				if !spec.Rows[k].Sep && len(spec.Rows[k].Items) > 0 {
+					spec.Rows[k].Items[len(spec.Rows[k].Items)-1] = gen.ItemSpec{K: gen.Pick(r, []string{"nan", "inf"})}
+					break
+				}
+			}
+		}
+		j := &c16Job{spec: spec, aligns: make([]int, spec.NCols()+1), order: r.Perm(len(formats)), reuse: r.Bool()}
 		for k := range j.aligns {
 			j.aligns[k] = r.Intn(4)
 		}
@@ -110,10 +196,7 @@ func c16Run(c *Ctx, i int, r *gen.R) {
 	}
 	desc := map[string]interface{}{"goroutines": G, "formats": len(formats), "gomaxprocs": runtime.GOMAXPROCS(0)}
 	c.Case = desc
-	type res struct {
-		out string
-		err bool
-	}
+	type res = c16Res
 	// concurrent phase
 	got := make([][]res, G)
 	var seq int64
@@ -148,16 +231,15 @@ func c16Run(c *Ctx, i int, r *gen.R) {
 			j := jobs[g]
 			got[g] = make([]res, len(formats))
 			<-start
-			for _, fi := range j.order {
-				// each render on a freshly built table owned by this goroutine; building is part of the workload
-				var out string
-				var err error
-				if p, val, st := Guard(func() { out, err = formats[fi].f(c16Build(j), g) }); p {
-					c.Rec.ViolateStack("panic-in-concurrent-render@"+PanicSite(st), fmt.Sprintf("goroutine %d: %s panicked: %v", g, formats[fi].name, val), map[string]interface{}{"table": j.spec, "format": formats[fi].name}, st)
-				}
-				got[g][fi] = res{out, err != nil}
-				n := atomic.AddInt64(&seq, 1)
-				completion[n-1] = int32(g)
+			// tables are built inside the goroutine: building is part of the workload
+			if p, val, st := Guard(func() {
+				c16Work(j, g, formats, func(fi int, r c16Res) {
+					got[g][fi] = r
+					n := atomic.AddInt64(&seq, 1)
+					completion[n-1] = int32(g)
+				})
+			}); p {
+				c.Rec.ViolateStack("panic-in-concurrent-render@"+PanicSite(st), fmt.Sprintf("goroutine %d panicked while building/rendering its own table: %v", g, val), map[string]interface{}{"table": j.spec}, st)
 			}
 		}(g)
 	}
@@ -169,10 +251,8 @@ func c16Run(c *Ctx, i int, r *gen.R) {
 	ref := make([][]res, G)
 	for g, j := range jobs {
 		ref[g] = make([]res, len(formats))
-		for _, fi := range j.order {
-			out, err := formats[fi].f(c16Build(j), g)
-			ref[g][fi] = res{out, err != nil}
-		}
+		g := g
+		c16Work(j, g, formats, func(fi int, r c16Res) { ref[g][fi] = r })
 	}
 	c.Rec.Count("goroutines_run", int64(G))
 	c.Rec.Count("concurrent_renders", int64(G*len(formats)))
@@ -204,7 +284,7 @@ func init() {
 		Level:  "exploration",
 		Race:   true,
 		Shards: raceShards,
-		Rule: "built with -race; shards run at GOMAXPROCS = all cores, 2, 4, 1. One case = one barrier-released batch of G goroutines (G cycles through 2, 8, 16, 32, 64), each owning a random table spec (as in C10, with alignments and occasional size-declaring items) which it builds and renders in all 12 formats (csv, json, markdown, html twice through one wrapper with caption/generator/context, auto markdown, text under the six built-in decorations, auto utf8-double) in a goroutine-specific order, each render on a freshly built table and wrapper, while 2 background goroutines read RegisteredDecorationNames/Named/auto.ListStyles in a loop. After the batch the same specs are built and rendered alone to obtain reference bytes (afterwards, so that grow-only process-wide state is first touched concurrently); 1/25 of the cells are 81-400 characters wide; every concurrent output must equal its reference. " +
+		Rule: "built with -race; shards run at GOMAXPROCS = all cores, 2, 4, 1. One case = one barrier-released batch of G goroutines (G cycles through 2, 8, 16, 32, 64), each owning a random table spec (as in C10, with alignments and occasional size-declaring items) which it builds and renders in all 17 formats (csv, json, markdown, html twice through one wrapper with caption/generator/context, auto markdown, text under the six built-in decorations, auto utf8-double, and json/csv/markdown/html/text through RenderTo into a writer that yields the processor on every Write - the caller's writer is the library's one suspension point) in a goroutine-specific order - half of the goroutines on one table of their own for all renders (so that state accumulates on it), the others on a freshly built table per render -, with property traffic on its own table, column 0 and first cell before every render (three keys in rotating order, read back after the render and compared like the output); a sixth of the tables hold an item the JSON encoder refuses, so that renders fail part-way during the batch; while 2 background goroutines read RegisteredDecorationNames/Named/auto.ListStyles in a loop. After the batch the same specs are built and rendered alone to obtain reference bytes (afterwards, so that grow-only process-wide state is first touched concurrently); 1/25 of the cells are 81-400 characters wide; every concurrent output must equal its reference. " +
 			"distinct_nontrivial counts distinct interleaving signatures (global completion order of the renders by goroutine id). The race detector's log is parsed by the parent; every report with a tabular frame is a violation; a fatal runtime error in the child is a violation.",
 		Assumptions: []string{
 			"each goroutine owns its tables and wrappers; sharing one table or wrapper between goroutines is out of scope (documented as unsupported for HTMLTable with a generator context)",
